@@ -291,6 +291,20 @@ def make(prop, o, r, why, tier):
             out["reproduced"] = True
             out["replay"] = dict(input={k: _j(x) for k, x in found[0].items()}, violated=True, detail=found[1],
                                  via="neighbour search")
+      elif c.qual.endswith(".__init__"):
+        # constructor contract: an uninitialised instance of the real class is initialised with the model's arguments
+        # and the postconditions are evaluated on it
+        import importlib
+        mod = importlib.import_module(c.relpath[:-3].replace("/", "."))
+        cls = getattr(mod, c.qual.split(".")[0])
+        obj = cls.__new__(cls)
+        kw = model_kwargs(c, o, r) if r["status"] == "sat" else None
+        if kw is not None:
+          v, d = run_case(c, lambda **k: obj.__init__(**k), kw, prop, extra_env={"self": obj})
+          out["replay"] = dict(input={k: _j(x) for k, x in kw.items()}, violated=v, detail=d,
+                               constructed=f"{c.qual.split('.')[0]}({', '.join(f'{k}={x!r}' for k, x in kw.items())})")
+          if v:
+            out["reproduced"] = True
       elif c.replay_self:
         import importlib
         mod = importlib.import_module(c.relpath[:-3].replace("/", "."))
